@@ -85,6 +85,14 @@ def episode_for(project, rng, n_entries, with_pairs=True):
         sg = ep.scan(excl={"kind": "glob", "patterns": [sc.entry_path(a) + "*"]})
         ep.law("excl", [s0, sl])
         ep.law("same", [sl, sg])
+    # several regex_exclusions, one with an inline global flag: each pattern means what it means on its own
+    if len(entries) >= 2:
+        a, b = entries[0], entries[1]
+        pa = "(?i).*/" + re.escape(a[-1].upper()) + r"(\.py)?$"          # matches a's path, case-insensitively
+        pb = ".*/" + re.escape(b[-1].upper()) + r"(\.py)?$"              # upper-cased name of b: matches nothing
+        for pats in ([pa, pb], [pb, pa]):
+            sx = ep.scan(excl={"kind": "regex", "patterns": pats})
+            ep.law("excl", [s0, sx])
     # exclusion x externals included: an excluded module that a remaining file imports must stay away (no module, no
     # import), whatever the external option says
     for e in entries[:3]:
